@@ -366,12 +366,15 @@ package storage
 //@ func (f *fileStore) fetch(offset uint64) (*btreeNode, error)
 //@   props C01 C11 C12 C16
 //@   requires fsLocked(f)
-//@   trusted
 //@   requires cacheOK(f)
+//@   assume[A-DISK] !has(f.cache.cache, offset) ==> offset <= 9223372036854771711 && fsize(f.file) >= offset + 4096 &&
+//@              (fdata(f.file, offset) == 1 ? alWF() && fLeafImage(f.file, offset) : fdata(f.file, offset) == 0 && aiWF() && fIntImage(f.file, offset))
 //@   modifies listLen(f.cache.list), listAt(f.cache.list), listPos, listOf, mapof(f.cache.cache), all(cacheEntry.val)
 //@   ensures cacheOK(f)
 //@   ensures err != nil ==> result0 == nil
-//@   ensures err == nil ==> nodeOK(result0) && result0.fileOffset == offset && cached(f, result0) && result0.isLeaf == leafAt(offset)
+//@   ensures[hit; C16] old(has(f.cache.cache, offset)) ==> err == nil && result0 == old(centry(f.cache.cache[offset]).val)
+//@   ensures[miss; C12 C16] !old(has(f.cache.cache, offset)) && err == nil ==> fresh(result0) && (result0.isLeaf ? leafIs(result0) : intIs(result0))
+//@   ensures_assumed[node.inv] err == nil ==> nodeOK(result0) && result0.fileOffset == offset && cached(f, result0) && result0.isLeaf == leafAt(offset)
 
 //@ spec func fsOf(b *BTree) *fileStore { b.store.(*fileStore) }
 //@ spec pred btOK(b *BTree) { typeof(b.store) == typ(*fileStore) && fsOf(b) != nil && cacheOK(fsOf(b)) }
